@@ -68,7 +68,8 @@ _MAX_REBUILD = 600
 _ENUM_PLAN = {
     # name: (tier set, builder, shards quick, shards thorough)
     "op1": (lambda tier: G.cells_1op([1, 2, 3] if tier == "quick" else [1, 2, 3, 4])),
-    "special": (lambda tier: G.cells_special([1, 2, 3] if tier == "quick" else [1, 2, 3, 4])),
+    "special": (lambda tier: G.cells_special([1, 2, 3] if tier == "quick" else [1, 2, 3, 4])
+                + G.cells_const_mix(full=tier != "quick")),
     "op2": (lambda tier: G.cells_2op([1, 2, 3], "repn") if tier == "quick" else G.cells_2op([1, 2, 3, 4], "rep")),
     "op2all": (lambda tier: G.cells_2op([1, 2], "all")),
 }
@@ -495,15 +496,15 @@ def _int_side(t):
     if len(t) == 3 and t[0] in rv.BINARY:
         a, b = t[1][0] == "lit", t[2][0] == "lit"
         return {(False, False): "none", (True, False): "lhs", (False, True): "rhs", (True, True): "both"}[(a, b)]
-    return "some" if any(c[0] == "lit" for c in G.children(t)) else "none"
+    return "some" if any(c[0] in ("lit", "kb", "kbit") for c in G.children(t)) else "none"
 
 
 def _signature(R, t, ctx, div):
     kids = G.children(t)
     kinds, widths = [], []
     for c in kids:
-        if c[0] == "lit":
-            kinds.append("int")
+        if c[0] in ("lit", "kb", "kbit"):
+            kinds.append({"lit": "int", "kb": "const_bool", "kbit": "const_bit"}[c[0]])
             widths.append(None)
         else:
             ty = R.stype(c)
@@ -512,6 +513,8 @@ def _signature(R, t, ctx, div):
     if t[0] in ("aconst", "aidx"):
         p = R.ptypes[t[1]]
         kinds.insert(0, f"arr:{p[1]}")
+    if t[0] in G.NARY:
+        kinds = sorted(set(kinds))  # one root cause, not one signature per operand arrangement
     sig = {"op": t[0], "kinds": kinds, "int_side": _int_side(t), "ctx": CTX[ctx], "divergence": div}
     if len(kids) == 2 and None not in widths:
         sig["wrel"] = "eq" if widths[0] == widths[1] else "lt" if widths[0] < widths[1] else "gt"
